@@ -151,7 +151,9 @@ def _perm(seq, order):
 
 CFUNC_CLS = {"math.sin": "builtin", "math.cos": "builtin", "len": "builtin", "abs": "builtin", "np.add": "ufunc",
              "np.multiply": "ufunc", "str.upper": "method_descriptor", "str.lower": "method_descriptor",
-             "itemgetter(0)": "itemgetter", "itemgetter(1)": "itemgetter"}
+             "itemgetter(0)": "itemgetter", "itemgetter(1)": "itemgetter",
+             "Decimal('1.5')": "Decimal", "Decimal('2.5')": "Decimal", "array('i', [1])": "array", "array('i', [2])": "array",
+             "bytearray(b'a')": "bytearray", "bytearray(b'b')": "bytearray", "deque([1])": "deque", "deque([2])": "deque"}
 _CFUNCS = {}
 
 
@@ -164,6 +166,12 @@ def cfuncs():
         _CFUNCS.update({"math.sin": math.sin, "math.cos": math.cos, "len": len, "abs": abs, "np.add": np.add,
                         "np.multiply": np.multiply, "str.upper": str.upper, "str.lower": str.lower,
                         "itemgetter(0)": operator.itemgetter(0), "itemgetter(1)": operator.itemgetter(1)})
+        from array import array
+        from collections import deque
+        from decimal import Decimal
+        for src in CFUNC_CLS:
+            if src not in _CFUNCS:
+                _CFUNCS[src] = eval(src)  # noqa: S307 (fixed table of literals)
     return _CFUNCS
 
 
@@ -291,7 +299,8 @@ def term_of(v):
             return {"k": "type", "v": name, "origin": origin, "alias": alias}
     import functools
     for name, f in cfuncs().items():
-        if v is f or (type(v) is type(f) and type(v).__name__ == "itemgetter" and v.__reduce__() == f.__reduce__()):
+        if v is f or (type(v) is type(f) and type(v).__name__ == "itemgetter" and v.__reduce__() == f.__reduce__()) \
+                or (type(v) is type(f) and type(v).__name__ in ("Decimal", "array", "bytearray", "deque") and v == f):
             return {"k": "cfunc", "cls": CFUNC_CLS[name], "v": name}
     if isinstance(v, functools.partial):
         return {"k": "partial", "fn": term_of(v.func), "v": [term_of(x) for x in v.args]}
